@@ -362,13 +362,15 @@ func (doc *Document) resetCaches() {
 }
 
 func (doc *Document) Warnings() (warnings Warnings) {
-	context := WarningContext{}
-
 	// Filter is only used to visit every node. The copies it makes must not be
 	// added to this document.
 	scratch := NewDocument()
 
 	for _, node := range doc.nodes {
+		// A record that is not an individual or a family (such as a source) has
+		// no context. It must not inherit the context of the record before it.
+		context := WarningContext{}
+
 		if individual, ok := node.(*IndividualNode); ok {
 			context.Individual = individual
 			context.Family = nil
